@@ -732,9 +732,10 @@ func (s *Store) Purge(q dns.Question) {
 		s.denialProofs.purge(q)
 	}
 	for _, cd := range []bool{false, true} {
-		key := CacheKey{Question: q, CD: cd}.Hash()
-		s.positive.Remove(key)
-		s.negative.Remove(key)
+		want := CacheKey{Question: q, CD: cd}
+		key := want.Hash()
+		purgeVerified(s.positive.cache, key, want)
+		purgeVerified(s.negative.cache, key, want)
 	}
 
 	type located struct {
@@ -766,6 +767,26 @@ func (s *Store) Purge(q dns.Question) {
 			s.negative.Remove(h.key)
 		}
 	}
+}
+
+// purgeVerified removes the entry filed under key only when it was admitted
+// for want — the same full-preimage check every lookup route runs. The map
+// key is a 64-bit hash, so the slot of q's key may hold a different
+// question's live entry (a collision); to a purge of q that entry is a miss,
+// exactly as it is to a lookup of q, and must survive. An entry without a
+// recorded identity can be served to nobody and is dropped with the key.
+// CompareAndDelete keeps a concurrent replacement that landed after the
+// check.
+func purgeVerified(c *cache.Cache, key uint64, want CacheKey) {
+	v, ok := c.Get(key)
+	if !ok {
+		return
+	}
+	entry, _ := v.(*CacheEntry)
+	if entry != nil && entry.question.Name != "" && !entryMatchesKey(entry, want) {
+		return
+	}
+	c.CompareAndDelete(key, v)
 }
 
 // PositiveLen returns the number of entries in the positive cache.
